@@ -23,6 +23,7 @@ import (
 	"go/token"
 	"go/types"
 	"sort"
+	"strings"
 
 	"golang.org/x/tools/go/ssa"
 )
@@ -388,5 +389,264 @@ func paramsInChildRuleSSA(r *Run, rule string) {
 		r.Bad(rule, name, "parameter binding", w.Pos(badPos), bad)
 	default:
 		r.Ok(rule, name, "parameter binding", w.Pos(uf.Decl.Pos()), fmt.Sprintf("%d path(s): every Set on the current scope follows the install of the function's own scope", len(pw.paths)))
+	}
+}
+
+// inLoopFlagRuleSSA (C08.R5): the parser's in-loop flag. Every parser function
+// that writes the flag -- directly or through a helper that does (a
+// set-and-return-the-restorer helper), with closures and the deferred calls at
+// its exits walked in line -- is checked on each of its paths: at every return
+// the flag holds what it held on entry, put back by a deferred call; what is
+// installed is a constant; and the install (with its restore deferred) comes
+// before the first call that can parse a block (the block parser, the
+// statement parser, the Pratt entry, a function taken from a registry).
+// Helpers whose every caller passes are not judged on their own.
+func inLoopFlagRuleSSA(r *Run, rule string) {
+	w := r.W
+	pm := w.parserModel()
+	if len(pm.problems) > 0 {
+		r.Lost(rule, "parser model")
+		return
+	}
+	var flag *types.Var
+	st := pm.typ.Underlying().(*types.Struct)
+	for i := 0; i < st.NumFields(); i++ {
+		if isBasicKind(st.Field(i).Type(), types.Bool) {
+			flag = st.Field(i)
+		}
+	}
+	if flag == nil {
+		r.Lost(rule, "in-loop flag of the parser")
+		return
+	}
+	w.SSA()
+	flagIdx := fieldIndex(st, flag)
+	pkg := w.SSAPkg("parser")
+	if pkg == nil {
+		r.Lost(rule, "parser package (SSA)")
+		return
+	}
+	isFlagAddr := func(v ssa.Value) bool {
+		fa, ok := v.(*ssa.FieldAddr)
+		if !ok || fa.Field != flagIdx {
+			return false
+		}
+		if _, fresh := fa.X.(*ssa.Alloc); fresh {
+			return false
+		}
+		t := fa.X.Type()
+		if pt, ok := t.Underlying().(*types.Pointer); ok {
+			t = pt.Elem()
+		}
+		n, ok := t.(*types.Named)
+		return ok && n.Obj() == pm.typ.Obj()
+	}
+	all := functionsOf(pkg)
+	writer := map[*ssa.Function]bool{}
+	for _, fn := range all {
+		for _, b := range fn.Blocks {
+			for _, ins := range b.Instrs {
+				if stI, ok := ins.(*ssa.Store); ok && isFlagAddr(stI.Addr) {
+					top := fn
+					for top.Parent() != nil {
+						top = top.Parent()
+					}
+					writer[fn], writer[top] = true, true
+				}
+			}
+		}
+	}
+	if len(writer) == 0 {
+		r.Lost(rule, "writes of the parser's in-loop flag")
+		return
+	}
+	blockParsers := map[*ssa.Function]bool{}
+	for _, f := range []*FuncInfo{pm.blockParse, pm.pratt, pm.stmtParse} {
+		if f != nil {
+			if fn := w.SSAFunc(f); fn != nil {
+				blockParsers[fn] = true
+			}
+		}
+	}
+	inline := func(caller, callee *ssa.Function) bool {
+		return pkgOf(callee) == pkg && (callee.Parent() != nil || writer[callee]) && !blockParsers[callee]
+	}
+	// functions to analyse: top-level functions that write the flag or call one that does
+	var roots []*ssa.Function
+	callers := map[*ssa.Function][]*ssa.Function{}
+	for _, fn := range all {
+		if fn.Parent() != nil {
+			continue
+		}
+		uses := writer[fn]
+		var scan func(g *ssa.Function)
+		scan = func(g *ssa.Function) {
+			for _, b := range g.Blocks {
+				for _, ins := range b.Instrs {
+					var cc *ssa.CallCommon
+					switch x := ins.(type) {
+					case *ssa.Call:
+						cc = &x.Call
+					case *ssa.Defer:
+						cc = &x.Call
+					}
+					if cc != nil {
+						if cal := cc.StaticCallee(); cal != nil && cal != fn && writer[cal] && cal.Parent() == nil {
+							uses = true
+							callers[cal] = append(callers[cal], fn)
+						}
+					}
+				}
+			}
+			for _, a := range g.AnonFuncs {
+				scan(a)
+			}
+		}
+		scan(fn)
+		if uses {
+			roots = append(roots, fn)
+		}
+	}
+	sort.Slice(roots, func(i, j int) bool { return roots[i].Pos() < roots[j].Pos() })
+	type verdict struct {
+		bads     []string
+		badAt    token.Pos
+		installs int
+		paths    int
+	}
+	verdicts := map[*ssa.Function]*verdict{}
+	for _, fn := range roots {
+		v := &verdict{}
+		verdicts[fn] = v
+		pw := &pathWalker{inline: inline, unroll1: true, maxPaths: 100000, maxDepth: 5, runDefers: true}
+		pw.walk(fn)
+		if pw.overflow {
+			v.bads = append(v.bads, "too many paths")
+			v.badAt = fn.Pos()
+			continue
+		}
+		v.paths = len(pw.paths)
+		addBad := func(s string, at token.Pos) {
+			for _, b := range v.bads {
+				if b == s {
+					return
+				}
+			}
+			v.bads = append(v.bads, s)
+			if !v.badAt.IsValid() {
+				v.badAt = at
+			}
+		}
+		for _, p := range pw.paths {
+			var stores []int
+			for i, ev := range p.events {
+				if stI, ok := ev.(*ssa.Store); ok && isFlagAddr(p.resolve(stI.Addr)) {
+					stores = append(stores, i)
+				}
+			}
+			if len(stores) == 0 || p.end != "return" {
+				continue
+			}
+			first := stores[0]
+			isEntry := func(val ssa.Value) bool {
+				ld, ok := p.resolve(val).(*ssa.UnOp)
+				if !ok || ld.Op != token.MUL || !isFlagAddr(p.resolve(ld.X)) {
+					return false
+				}
+				at, seen := p.loadAt[ld]
+				return seen && at <= first
+			}
+			inDefer := func(ei int) bool {
+				for _, sp := range p.deferSpans {
+					if ei >= sp[0] && ei < sp[1] {
+						return true
+					}
+				}
+				return false
+			}
+			last := stores[len(stores)-1]
+			lastSt := p.events[last].(*ssa.Store)
+			if !isEntry(lastSt.Val) {
+				addBad("on some path the function returns with the in-loop flag changed (it is not put back to what it was on entry; resetting it to a constant makes an enclosing loop body reject break/continue)", lastSt.Pos())
+				continue
+			}
+			if !inDefer(last) {
+				addBad("the flag is put back by an ordinary statement, not by a deferred call: an early return in between leaves it set", lastSt.Pos())
+			}
+			deferAt := -1
+			for i, ev := range p.events {
+				if _, ok := ev.(*ssa.Defer); ok && !inDefer(i) && (deferAt < 0 || i < deferAt) {
+					deferAt = i
+				}
+			}
+			for _, si := range stores[:len(stores)-1] {
+				stI := p.events[si].(*ssa.Store)
+				if isEntry(stI.Val) {
+					continue
+				}
+				v.installs++
+				if _, isC := p.constOf(stI.Val); !isC {
+					addBad("the in-loop flag is set from a non-constant outside a deferred restore", stI.Pos())
+				}
+				// nothing that can parse a block before the install (and before its restore is deferred)
+				for i := 0; i < len(p.events); i++ {
+					if inDefer(i) {
+						continue
+					}
+					c, ok := p.events[i].(*ssa.Call)
+					if !ok {
+						continue
+					}
+					can := blockParsers[c.Call.StaticCallee()]
+					if c.Call.StaticCallee() == nil && !c.Call.IsInvoke() {
+						if _, isB := c.Call.Value.(*ssa.Builtin); !isB {
+							can = true // a function taken from a registry
+						}
+					}
+					if !can {
+						continue
+					}
+					if i < si {
+						addBad("the flag is set only after a call that can already parse the body (an iterable that is a call with a block carries the loop body): break/continue in that body are rejected", stI.Pos())
+					} else if deferAt < 0 || deferAt > i {
+						addBad("a sub-parse follows the install before the restore is deferred", c.Pos())
+					}
+					break
+				}
+			}
+		}
+	}
+	// helpers whose every caller was analysed and passes are not judged on their own
+	isHelperOK := func(fn *ssa.Function) bool {
+		cs := callers[fn]
+		if len(cs) == 0 {
+			return false
+		}
+		for _, c := range cs {
+			if v := verdicts[c]; v == nil || len(v.bads) > 0 {
+				return false
+			}
+		}
+		return true
+	}
+	n := 0
+	for _, fn := range roots {
+		v := verdicts[fn]
+		name := ssaName(fn)
+		con := "save / set / restore of the in-loop flag"
+		switch {
+		case len(v.bads) > 0 && isHelperOK(fn):
+			r.Note("R5: %s changes the flag for its callers (a set-and-restore helper); judged in %d caller(s)", name, len(callers[fn]))
+		case len(v.bads) > 0:
+			n++
+			sort.Strings(v.bads)
+			r.Bad(rule, name, con, w.Pos(v.badAt), strings.Join(v.bads, "; "))
+		case v.installs > 0:
+			n++
+			r.Ok(rule, name, con, w.Pos(fn.Pos()), fmt.Sprintf("%d path(s): set to a constant before anything that can parse a block; the entry value is put back by a deferred call", v.paths))
+		}
+	}
+	if n == 0 {
+		r.Lost(rule, "functions that set the in-loop flag")
 	}
 }
